@@ -5,6 +5,7 @@ import NemoVerif.Models.V1Run
 import NemoVerif.Models.V1Mut
 import NemoVerif.Models.V1Ref
 import NemoVerif.Models.V1Annot
+import NemoVerif.Models.V1Uid
 import NemoVerif.Generated.LlmFlowsV1
 
 namespace NemoVerif.Drive.C14
@@ -260,8 +261,34 @@ def sresToJson : SRes → Json
   | .err => Json.mkObj [("res", "err")]
   | .oof => Json.mkObj [("res", "oof")]
 
+def statusToJson : Status → Json
+  | .active => "ACTIVE" | .interrupted => "INTERRUPTED" | .aborted => "ABORTED" | .completed => "COMPLETED"
+
+/-- a flow state up to the NAMES of the uids: [flow id, head, status, index of the first flow state whose uid is
+    `interrupted_by` (what the resume pass's lookup finds); -1 = none, -2 = no such flow state] -/
+def fsToJson (flows : List FS) (fs : FS) : Json :=
+  let by_ : Int := match fs.interruptedBy with
+    | none => -1
+    | some u => match flows.findIdx? (fun g => g.uid == u) with
+      | some i => (i : Int)
+      | none => -2
+  Json.arr #[.str fs.flowId, jInt fs.head, statusToJson fs.status, jInt by_]
+
 def handle (op : String) (j : Json) : Except String Json := do
   match op with
+  | "states" =>
+    -- the interpreter STATE after every prefix (flow states up to uid renaming) + `UidsOK` (theorem uids_pairwise_distinct)
+    let cfgs ← (← (← j.getObjVal? "flows").getArr?).toList.mapM cfgOfJson
+    let hist ← (← (← j.getObjVal? "history").getArr?).toList.mapM eventOfJson
+    let outs := (List.range (hist.length + 1)).map fun k =>
+      match applyHide (hist.take k) [] with
+      | none => Json.null
+      | some actual =>
+        match replay true cfgs actual {} with
+        | .ok st => Json.mkObj [("flows", Json.arr (st.flows.map (fsToJson st.flows)).toArray),
+                                ("uids_ok", .bool (decide (NemoVerif.V1Uid.UidsOK st)))]
+        | .error _ => Json.null
+    pure (Json.mkObj [("res", Json.arr outs.toArray)])
   | "follow" =>
     -- the source-level reference `followAllK` of next_step_is_flow_statement_with_do on every prefix:
     -- the dialog flow "id"/"prog", the subflow library, the history; null = the reference makes no claim
